@@ -1218,9 +1218,9 @@ def run(ctx):
         return
     corpus = vlib.corpus_lines("C30")
     sel = [l for l in corpus if l.split("\t")[1] == "sel"]
-    n = ctx.n(160, 6000)
+    n = ctx.n(140, 6000)
     lines = sel + [gen_line(ctx.rng) for _ in range(n)]
     check_select(ctx, lines, "switch", "S")
     from checks import c30_cov
     c30_cov.check_cov(ctx, [l for l in corpus if l.split("\t")[1] == "cov"] +
-                      [c30_cov.gen_cov(ctx.rng) for _ in range(ctx.n(60, 2500))])
+                      [c30_cov.gen_cov(ctx.rng) for _ in range(ctx.n(50, 2500))])
